@@ -74,7 +74,7 @@ def gen_case(rng, idx):
             gws.append({"spec": "popen", "id": "w2", "execmodel": "thread", "activity": rng.choice(("idle", "blocked", "sleep"))})
     action = {"sigkill": "wait_killed", "sigterm": "wait_killed", "during_bootstrap": "wait_killed"}.get(removal, removal)
     return {"gateways": gws, "action": action, "removal": removal, "topo": topo, "model": model, "activity": act,
-            "worker_noise": rng.random() < 0.4,
+            "worker_noise": rng.random() < 0.4, "worker_debug": rng.random() < 0.15,
             # what the workers inherit as fd 2: a file; a pipe whose reader goes away with the initiator; nothing (fd 2 closed)
             "stderr": rng.choice(("file", "file", "file", "pipe_reader_gone", "closed")),
             "boot_delay": rng.choice((0.0, 0.02, 0.05, 0.1, 0.15, 0.25, 0.4)), "removal_delay": rng.choice((0.0, 0.0, 0.01, 0.1, 0.3))}
@@ -90,6 +90,10 @@ def run_case(case, out):
     extra = {"VERIF_TAG": tag}
     if case.get("worker_noise"):
         extra["EXECNET_VERIF"] = "noise:%d:0.02:5" % (hash(tag) & 0xFFFF)
+    if case.get("worker_debug"):
+        # workers that trace (EXECNET_DEBUG=2 writes to their stderr), with collections starting at arbitrary lines
+        extra["EXECNET_DEBUG"] = "2"
+        extra["EXECNET_VERIF"] = "noisegc:%d:0.02:5" % (hash(tag) & 0xFFFF)
     mode = case.get("stderr", "file")
     err_r = None
     kw: dict = {"stderr": errf}
@@ -307,6 +311,8 @@ def run_shard(spec):
         cases[2].update(gen_fixed("popen", "thread", "swallow_kbi", "sigkill", stderr="pipe_reader_gone"))
         cases[4].update(gen_fixed("popen", "thread", "callback_service", "sigkill"))
     extra_fixed = []
+    if spec["shard"] == 5:
+        extra_fixed += [dict(gen_fixed("popen", "thread", "sleep", "sigkill"), worker_debug=True), dict(gen_fixed("popen", "main_thread_only", "idle", "close_connection"), worker_debug=True)]
     if spec["shard"] == 4:
         extra_fixed += [gen_fixed("popen", "thread", "python_sigint_handler", "sigkill"), gen_fixed("python", "main_thread_only", "python_sigint_ign", "os_exit")]
     if spec["shard"] == 2:
